@@ -175,6 +175,12 @@ def parse_kani_output(out, harness_names):
             r["status"] = "pass" if m.group(1) == "SUCCESSFUL" else "fail"
         else:
             r["status"] = "undecided"
+        # Kani prints "VERIFICATION:- FAILED" + "CBMC timed out." / "CBMC failed" without any check result when the
+        # solver hit --harness-timeout or died: that is undecided, never a violation
+        if r["status"] == "fail" and not re.search(r"\*\* \d+ of \d+ failed", sec) and \
+                ("CBMC timed out" in sec or "CBMC failed" in sec):
+            r["status"] = "undecided"
+            r["reason"] = "timeout" if "CBMC timed out" in sec else "CBMC failed without a verdict (OOM/crash)"
         mm = re.search(r"\*\* (\d+) of (\d+) failed", sec)
         if mm:
             r["checks_failed"], r["checks_total"] = int(mm.group(1)), int(mm.group(2))
